@@ -38,7 +38,19 @@ def task(which, direction=None):
     return Task(w, f, cons[which], name=name, params=params).run()
 
 
-QUERIES = ["find_all_children", "get_ancestry", "find_child[as a function]", "find_single_node_by_path", "find_all_descendants"]
+QUERIES = ["find_all_children", "get_ancestry", "find_child[as a function]", "find_single_node_by_path", "find_all_descendants", "find_all_nodes_by_path"]
+
+
+def task_lemma():
+    """L-empty-generation (induction over the generation index; base and step discharged by z3)"""
+    from pyvc.task import TaskResult
+    from pyvc.core import ObRec
+    from contracts import c09_queries as Q
+    r = TaskResult("C09/lemma:empty-generation")
+    for nm, ok, t in Q.empty_generation_lemma():
+        r.obs.append(ObRec(f"C09/lemma:empty-generation/{nm}", "proved" if ok else "undecided", t, kind="lemma"))
+    r.assumptions.add("induction over the naturals is applied outside the solver (base case and step are the two obligations)")
+    return r
 
 
 def task_query(which):
@@ -58,6 +70,8 @@ def task_query(which):
         con, f = Q.install_find_single_node_by_path(w), Node.find_single_node_by_path
     elif which == "find_all_descendants":
         con, f = Q.install_find_all_descendants(w), Node.find_all_descendants
+    elif which == "find_all_nodes_by_path":
+        con, f = Q.install_find_all_nodes_by_path(w), Node.find_all_nodes_by_path
     return Task(w, f, con, name=f"C09/{which}").run()
 
 
@@ -298,7 +312,7 @@ def main(tier, seed):
     t0 = time.time()
     specs = [("props.C09", "task", {"which": f}) for f in FUNCS]
     specs += [("props.C09", "task", {"which": "shift", "direction": d}) for d in ("RIGHT", "LEFT", "other")]
-    specs += [("props.C09", "task_query", {"which": q}) for q in QUERIES]
+    specs += [("props.C09", "task_query", {"which": q}) for q in QUERIES] + [("props.C09", "task_lemma", {})]
     results = common.run_tasks(specs)
     b = bounded(tier, seed)
     return common.decide(PID, tier, seed, results, b, t0, "DESIGN.md §4 C09", extra_assumptions=[
@@ -308,4 +322,6 @@ def main(tier, seed):
         "queries: find_all_children (filter by a counting function), find_all_descendants (count and document-order rank of every matching "
         "descendant), find_single_node_by_path (chain of first children), get_ancestry (parent chain; terminates because parent links are acyclic: "
         "precondition, ghost depth) have exact contracts; the ghost counting/rank functions enter through their one-level unfoldings (T-unfold)",
-        "bounded only (no contract yet): find_all_nodes_by_path"])
+        "find_all_nodes_by_path is specified generation by generation (ghosts gen_len / gen_elem / gen_offset with one-level unfoldings); the lemma "
+        "'an empty generation stays empty' is proved by induction; L-enum (every position of a generation has a source position) is a counting "
+        "argument that is part of the ghosts' definition and is NOT machine-checked"])
